@@ -120,11 +120,27 @@ def check_consolidate(ctx, c):
     if a1 != {} or c1 != ["only-a-child"]:
         ctx.violation("consolidate-result-shared", "consolidate_attrs() returned an object polluted by the caller of an earlier call: %r %r" % (a1, c1), wit)
         return False
+    if ctx.rng.random() < 0.2:
+        kw = dict(kw, _add_ws=ctx.rng.random() < 0.5)   # Tag's own option: consumed like Tag() does, never an attribute
+    if ctx.rng.random() < 0.15:
+        import collections
+        import types
+        args.insert(ctx.rng.randint(0, len(args)), ctx.rng.choice([collections.UserDict({"ud": "1"}), types.MappingProxyType({"mp": "1"}),
+                                                                    collections.ChainMap({"cm": "1"})]))
+    try:
+        direct = ht.Tag("x", *args, **kw)
+        direct_exc = None
+    except Exception as e:
+        direct, direct_exc = None, e
     try:
         attrs, children = ht.consolidate_attrs(*args, **kw)
-        direct = ht.Tag("x", *args, **kw)
     except Exception as e:
-        ctx.violation("consolidate-raises", "consolidate_attrs raised %r" % e, wit)
+        if direct_exc is None or type(e) is not type(direct_exc):
+            ctx.violation("consolidate-raises", "consolidate_attrs raised %r, direct construction %r" % (e, direct_exc), wit)
+            return False
+        return True
+    if direct_exc is not None:
+        ctx.violation("consolidate-accepts-what-tag-rejects", "consolidate_attrs accepted arguments for which Tag() raises %r" % direct_exc, wit)
         return False
     if type(attrs) is not dict or list(attrs.items()) != list(direct.attrs.items()):
         ctx.violation("consolidate-attrs-differ", "consolidate_attrs attributes %r, direct construction %r" % (list(attrs.items())[:6], list(direct.attrs.items())[:6]), wit)
@@ -141,7 +157,7 @@ def check_consolidate(ctx, c):
     if len(children) != len(nd) or any(a is not b for a, b in zip(children, nd)):
         ctx.violation("consolidate-children-altered", "children returned by consolidate_attrs are not the non-dict arguments unchanged", wit)
         return False
-    rebuilt = ht.Tag("x", attrs, *children)
+    rebuilt = ht.Tag("x", attrs, *children, _add_ws=kw.get("_add_ws", True))
     if not (rebuilt == direct and direct == rebuilt) or rebuilt.get_html_string() != direct.get_html_string():
         ctx.violation("consolidate-rebuild-differs", "Tag(n, attrs, *children) differs from direct construction", wit)
         return False
